@@ -224,6 +224,9 @@ PrintBehaviour ==
                                          reqs |-> [i \in 1..Len(reqs) |-> [f |-> reqs[i][1], ls |-> reqs[i][2]]],
                                          stops |-> [i \in 1..Len(stops) |-> [line |-> stops[i].line, vs |-> stops[i].vs]]])>>)
 PrintProgs == PrintT(<<"PROGS", ToJson([i \in 1..Len(Progs) |->
-                  [ast |-> Progs[i], lib |-> Libs[i], out |-> RunTr(i).out, err |-> RunTr(i).err]])>>)
+                  [ast |-> Progs[i], lib |-> Libs[i], out |-> RunTr(i).out, err |-> RunTr(i).err,
+                   \* the variables the module has in the end: what its own statements bind, nothing else
+                   \* (a debugger that copies a frame's locals into the module must take them out again)
+                   names |-> SetToSeq(AssignedS(Progs[i], 1) \cup AssignedS(Libs[i], 1))]])>>)   \* (the load statement binds the library's names)
 ASSUME PrintProgs
 =============================================================================
